@@ -78,7 +78,7 @@ def obligations(tier, ctx):
     # count / size dimension (P backend: concrete messages, the case split is on the size)
     from symcheck import consts
     ENV_SIZES = (4096, 8192, 65536, 131072)
-    lim = 110 if tier == "quick" else 1100
+    lim = 110 if tier == "quick" else 410
     nc = len(consts.size_cases(lim))
     for has in (True, False):
         obs.append(Ob(name=f"nth_{'id' if has else 'noid'}", params=[("k", "int"), ("mi", "int"), ("hsel", "int")],
